@@ -1,10 +1,13 @@
 (* Model/Eval.v — boreal/src/evaluator/{mod,variable,read_integer}.rs, arm by arm.
    `Evaluator::evaluate_expr` over the compiled `Expression` enum (everything except module
-   values other than bounded identifiers, `entrypoint`, regex values / `matches`, and floats),
+   values other than bounded identifiers, `entrypoint` and floats; `matches` is the unary operator
+   `UMatches`: the regex, lowered as in Model/Hir.v, has a match somewhere in the bytes — what
+   `Regex::is_match` is specified to answer, Spec/Regex.v `is_match`),
    `ForSelectionEvaluator`, `VarMatches::{find, find_at, find_in, count_matches, count_matches_in,
    find_match_occurence}`, `evaluate_read_integer` on direct memory, `evaluate_rule`.
    Definitions only. *)
 From Boreal Require Import Base.Prelude Base.Res.
+From Boreal Require Spec.Regex Model.Hir.
 
 (* ------------------------------------------------------------------ values *)
 Inductive value := VInt (z : Z) | VBytes (b : list N) | VBool (b : bool).
@@ -31,7 +34,8 @@ Inductive binop :=
 | OAdd | OSub | OMul | ODiv | OMod | OXor | OBand | OBor | OShl | OShr
 | OLt | OLe | OGt | OGe | OEq | ONeq
 | OContains (ci : bool) | OStartsWith (ci : bool) | OEndsWith (ci : bool) | OIEquals.
-Inductive unop := UNeg | UBnot | UNot.
+Inductive unop := UNeg | UBnot | UNot
+| UMatches (nocase dot_all : bool) (re : Hir.node).   (* Expression::Matches(expr, regex) *)
 Inductive selk := KAny | KAll | KNone | KExpr (pct : bool).
 Inductive ritype := I8 | U8 | I16 | U16 | I32 | U32 | I16BE | U16BE | I32BE | U32BE.
 
@@ -171,6 +175,9 @@ Definition eval_un (o : unop) (a : value) : res value :=
   | UNeg => match a with VInt n => Ok (VInt (wrap64 (- n))) | _ => Undef end
   | UBnot => let* n := unwrap_number a in Ok (VInt (Z.lnot n))
   | UNot => Ok (VBool (negb (truthy a)))
+  | UMatches nc da re =>
+      let* s := unwrap_bytes a in
+      Ok (VBool (Regex.is_match {| Regex.nocase := nc; Regex.dot_all := da; Regex.wide := false |} s (Hir.node_to_hir re)))
   end.
 
 (* ------------------------------------------------------------------ read_integer *)
